@@ -26,10 +26,10 @@ def decode_instruction(instr):
     elif op1 == 0b00 and op2 == 0b000000 and rn != 0b1111 and rt == 0b1111:
         # Preload Data
         return PldRegisterT1
-    elif not bit_at(instr, 24) and op2 == 0b000000 and rn == 0b1111 and rt != 0b1111:
+    elif not bit_at(instr, 24) and rn == 0b1111 and rt != 0b1111:
         # Load Register Byte
         return LdrbLiteralT1
-    elif not bit_at(instr, 24) and op2 == 0b000000 and rn == 0b1111 and rt == 0b1111:
+    elif not bit_at(instr, 24) and rn == 0b1111 and rt == 0b1111:
         # Preload Data
         return PldLiteralT1
     elif op1 == 0b00 and rn != 0b1111 and (
@@ -56,10 +56,10 @@ def decode_instruction(instr):
         # Preload Instruction
         # armv7, will not be implemented
         raise NotImplementedError()
-    elif bit_at(instr, 24) and op2 == 0b000000 and rn == 0b1111 and rt != 0b1111:
+    elif bit_at(instr, 24) and rn == 0b1111 and rt != 0b1111:
         # Load Register Signed Byte
         return LdrsbLiteralT1
-    elif bit_at(instr, 24) and op2 == 0b000000 and rn == 0b1111 and rt == 0b1111:
+    elif bit_at(instr, 24) and rn == 0b1111 and rt == 0b1111:
         # Preload Instruction
         # armv7, will not be implemented
         raise NotImplementedError()
